@@ -20,6 +20,7 @@ from pydiverse.transform._internal.backend.table_impl import (
     split_join_cond,
 )
 from pydiverse.transform._internal.backend.targets import Pandas, Polars, Target
+from pydiverse.transform._internal.errors import NotSupportedError
 from pydiverse.transform._internal.ops import ops
 from pydiverse.transform._internal.ops.op import Ftype
 from pydiverse.transform._internal.tree import types, verbs
@@ -740,7 +741,10 @@ with PolarsImpl.impl_store.impl_manager as impl:
         return x.cum_sum().fill_null(strategy="forward")
 
     @impl(ops.list_agg)
-    def _list_agg(x, *, _empty_group_by: bool):
+    def _list_agg(x, *, _empty_group_by: bool | None = None):
+        if _empty_group_by is None:
+            # only `summarize` tells whether there is a grouping
+            raise NotSupportedError("`list.agg` can only be used in `summarize` on the polars backend")
         if _empty_group_by:
             return x.implode()
         return x
